@@ -3,6 +3,10 @@ equivalence consistent with hashing and copying, created objects are well formed
 and generic-code round trips) and for pharmpy.workflows.hashing.ModelHash (C12: the key identifies the
 content across processes).
 
+The Model spec also holds the frame of the writers / code generators (C06: no API call changes its
+input): model.code, update_source, write_model, write_csv and write_files on models derived from a
+parent with which they share their data frames (section "Model: the frame of the writers").
+
 Corpora are built by ONE-FIELD PERTURBATION of a base set of constructor arguments (every entry is built
 by a fresh constructor call; 'same' entries give the same value built differently).  All pairs of a class
 are compared.  Nothing here is sampled.
@@ -1817,6 +1821,217 @@ def _model_wf(tier):
 
 
 # ------------------------------------------------------------------------------------------------
+# Model: the frame of the writers and code generators (no API call changes its input)
+# ------------------------------------------------------------------------------------------------
+# M2 = f(M) shares the data frames of M (Model.replace does not copy them).  Writing M2, or generating
+# its code, must leave M2, M and the frames the caller handed in unchanged - deep, i.e. including the
+# contents of the dataset and of the initial individual estimates - whether the call returns or raises.
+
+
+def _frame_ie():
+    """initial individual estimates for both etas of pheno, no two values equal, none zero"""
+    import pandas as pd
+
+    ids = sorted(set(int(i) for i in _pheno().dataset['ID']))
+    return pd.DataFrame({'ETA_CL': [0.01 * (k + 1) for k in range(len(ids))],
+                         'ETA_VC': [-0.02 * (k + 1) for k in range(len(ids))]},
+                        index=pd.Index(ids, name='ID'))
+
+
+def _frame_base():
+    """pheno around a private copy of its dataset (nothing is shared with the cached model)"""
+    m = _pheno()
+    return m.replace(dataset=m.dataset.copy(deep=True))
+
+
+def _frame_missing():
+    import numpy as np
+
+    m = _pheno()
+    df = m.dataset.copy(deep=True)
+    df.loc[df.index[[0, 5, 20]], 'WGT'] = np.nan
+    df.loc[df.index[[1, 2]], 'APGR'] = np.nan
+    return m.replace(dataset=df)
+
+
+def _frame_parents():
+    from pharmpy import modeling as mo
+
+    return {
+        'pheno': _frame_base,
+        'pheno + update_initial_individual_estimates': lambda: mo.update_initial_individual_estimates(
+            _frame_base(), _frame_ie()),
+        'pheno.replace(initial_individual_estimates)': lambda: _frame_base().replace(
+            initial_individual_estimates=_frame_ie()),
+        'pheno with missing values in the dataset': _frame_missing,
+    }
+
+
+def _frame_transformations(tier):
+    """label -> (the modeling function (for the fid), call(model))"""
+    from pharmpy import modeling as mo
+
+    tr = {
+        'itself': (None, lambda m: m),
+        'remove_iiv(CL)': (mo.remove_iiv, lambda m: mo.remove_iiv(m, 'CL')),
+        'remove_iiv()': (mo.remove_iiv, lambda m: mo.remove_iiv(m)),
+        'add_iiv(S1)': (mo.add_iiv, lambda m: mo.add_iiv(m, 'S1', 'exp')),
+        'create_joint_distribution': (mo.create_joint_distribution, lambda m: mo.create_joint_distribution(m)),
+        'set_initial_estimates': (mo.set_initial_estimates, lambda m: mo.set_initial_estimates(m, {'POP_CL': 0.01})),
+        'add_peripheral_compartment': (mo.add_peripheral_compartment, lambda m: mo.add_peripheral_compartment(m)),
+        'set_zero_order_absorption': (mo.set_zero_order_absorption, lambda m: mo.set_zero_order_absorption(m)),
+        'add_time_after_dose': (mo.add_time_after_dose, lambda m: mo.add_time_after_dose(m)),
+        'replace(name)': (None, lambda m: m.replace(name='other')),
+    }
+    if tier != 'quick':
+        tr.update({
+            'remove_iiv(VC)': (mo.remove_iiv, lambda m: mo.remove_iiv(m, 'VC')),
+            'fix_parameters': (mo.fix_parameters, lambda m: mo.fix_parameters(m, ['POP_CL'])),
+            'set_first_order_absorption': (mo.set_first_order_absorption,
+                                           lambda m: mo.set_first_order_absorption(m)),
+            'set_additive_error_model': (mo.set_additive_error_model, lambda m: mo.set_additive_error_model(m)),
+            'add_estimation_step': (mo.add_estimation_step, lambda m: mo.add_estimation_step(m, 'IMP')),
+            'drop_columns(APGR)': (mo.drop_columns, lambda m: mo.drop_columns(m, ['APGR'], mark=True)),
+            'remove_iiv(CL) + remove_iiv(VC)': (mo.remove_iiv,
+                                                lambda m: mo.remove_iiv(mo.remove_iiv(m, 'CL'), 'VC')),
+        })
+    return tr
+
+
+def _frame_writers():
+    """label -> (fid, call(model, directory))"""
+    from pharmpy import modeling as mo
+    from pharmpy.model.external.nonmem.model import Model as NMModel
+
+    return {
+        'model.code': (_fid(NMModel, 'code'), lambda m, d: m.code),
+        'update_source()': (_fid(NMModel, 'update_source'), lambda m, d: m.update_source()),
+        'write_model': (_fid(mo.write_model), lambda m, d: mo.write_model(m, os.path.join(d, 'run1.mod'))),
+        'write_csv': (_fid(mo.write_csv), lambda m, d: mo.write_csv(m, os.path.join(d, 'data.csv'))),
+        'write_files': (_fid(NMModel, 'write_files'),
+                        lambda m, d: m.write_files(path=__import__('pathlib').Path(d) / 'run2.mod')),
+    }
+
+
+_FRAME_PARTS = ('datainfo', 'parameters', 'random_variables', 'statements', 'execution_steps',
+                'dependent_variables', 'observation_transformation', 'name', 'description', 'value_type')
+
+
+def _frame_same_df(a, b):
+    if a is None or b is None:
+        return a is None and b is None
+    return (list(a.columns) == list(b.columns) and a.index.equals(b.index)
+            and [str(t) for t in a.dtypes] == [str(t) for t in b.dtypes] and bool(a.equals(b)))
+
+
+def _frame_snapshot(model):
+    """deep snapshot: the frames are copied before anything is generated from the model"""
+    ds, ie = model.dataset, model.initial_individual_estimates
+    snap = {'dataset': None if ds is None else ds.copy(deep=True),
+            'initial_individual_estimates': None if ie is None else ie.copy(deep=True)}
+    for part in _FRAME_PARTS:
+        snap[part] = getattr(model, part)
+    try:
+        snap['code'] = model.code
+    except Exception as e:
+        snap['code'] = 'raised ' + type(e).__name__
+    return snap
+
+
+def _frame_changes(model, snap):
+    """names of the parts of the model that are no longer what the snapshot recorded"""
+    out = []
+    for part in ('dataset', 'initial_individual_estimates'):
+        now = getattr(model, part)
+        if not _frame_same_df(now, snap[part]):
+            cols = []
+            if now is not None and snap[part] is not None and list(now.columns) == list(snap[part].columns) \
+                    and len(now) == len(snap[part]):
+                cols = [c for c in now.columns if not now[c].equals(snap[part][c])]
+            out.append(part + (f' (columns {cols})' if cols else ''))
+    for part in _FRAME_PARTS:
+        if not _safe_eq(getattr(model, part), snap[part]):
+            out.append(part)
+    try:
+        code = model.code
+    except Exception as e:
+        code = 'raised ' + type(e).__name__
+    if code != snap['code']:
+        out.append('generated code')
+    return out
+
+
+C_FRAME_ARG = ('writing a model / generating its code does not modify the model (deep: dataset, initial '
+               'individual estimates, datainfo, parameters, random variables, statements, generated code)')
+C_FRAME_PARENT = ('writing a model / generating its code does not modify the model it was derived from '
+                  '(the two share their data frames)')
+C_FRAME_TR = ('a transformation does not modify the model it is applied to (deep: dataset, initial individual '
+              'estimates, datainfo, parameters, random variables, statements, generated code)')
+
+
+def _frame_case(parent_label, tr_label, writer_label, tier):
+    """parent -> derived = transformation(parent) -> writer(derived), with the frame evaluated after each
+    step so that a modification is attributed to the call that made it"""
+    import shutil
+    import tempfile
+
+    from pharmpy.model import Model
+
+    parent = _frame_parents()[parent_label]()
+    psnap = _frame_snapshot(parent)
+    fid, call = _frame_writers()[writer_label]
+    tr_fn, tr_call = _frame_transformations(tier)[tr_label]
+    tr_fid = _fid(tr_fn) if tr_fn is not None else _fid(Model, 'replace')
+    res = []
+    outcome = 'returned'
+    derived = None
+    try:
+        derived = tr_call(parent)
+    except Exception as e:
+        outcome = 'raised ' + _exc(e)
+    ch = _frame_changes(parent, psnap)
+    res.append((tr_fid, C_FRAME_TR, not ch, f'{tr_label} {outcome}; changed in the model given to it: {ch}'))
+    if derived is None:
+        return res  # the transformation is not applicable to this parent
+    if ch:
+        psnap = _frame_snapshot(parent)
+    dsnap = _frame_snapshot(derived)  # generates the code of the derived model
+    if derived is not parent:
+        ch = _frame_changes(parent, psnap)
+        res.append((_frame_writers()['model.code'][0], C_FRAME_PARENT, not ch,
+                    f'model.code returned; changed in the model that {tr_label} was applied to: {ch}'))
+        if ch:
+            psnap = _frame_snapshot(parent)
+    d = tempfile.mkdtemp(prefix='b_structs_')
+    try:
+        call(derived, d)
+    except Exception as e:
+        outcome = 'raised ' + _exc(e)
+    finally:
+        shutil.rmtree(d, ignore_errors=True)
+    ch = _frame_changes(derived, dsnap)
+    res.append((fid, C_FRAME_ARG, not ch, f'{writer_label} {outcome}; changed in the model given to it: {ch}'))
+    if derived is not parent:
+        ch = _frame_changes(parent, psnap)
+        res.append((fid, C_FRAME_PARENT, not ch,
+                    f'{writer_label} {outcome}; changed in the model that {tr_label} was applied to: {ch}'))
+    return res
+
+
+def _model_frame_wf(tier):
+    for pl in _frame_parents():
+        for tl in _frame_transformations(tier):
+            for wl in _frame_writers():
+                yield (f'frame: {pl} -> {tl} -> {wl}',
+                       (lambda pl=pl, tl=tl, wl=wl: _frame_case(pl, tl, wl, tier)))
+
+
+def _model_wf_all(tier):
+    yield from _model_wf(tier)
+    yield from _model_frame_wf(tier)
+
+
+# ------------------------------------------------------------------------------------------------
 # registry and the check function
 # ------------------------------------------------------------------------------------------------
 def _specs():
@@ -1880,7 +2095,7 @@ def _specs():
         Spec('EstimationStep', EstimationStep, _eststep_entries, td, EstimationStep.from_dict, _eststep_wf),
         Spec('SimulationStep', SimulationStep, _simstep_entries, td, SimulationStep.from_dict, _simstep_wf),
         Spec('ExecutionSteps', ExecutionSteps, _execsteps_entries, td, ExecutionSteps.from_dict),
-        Spec('Model', Model, _model_entries, lambda x: Model.to_dict(x), Model.from_dict, _model_wf),
+        Spec('Model', Model, _model_entries, lambda x: Model.to_dict(x), Model.from_dict, _model_wf_all),
     ]
     specs[-1].extra_unary = _model_extra_unary
     return specs
@@ -1919,7 +2134,15 @@ def bounded_value_classes(tier, only=None):
                  'Parameter.create over the full ' + ('8x7x8' if tier == 'quick' else '11x10x11') + ' (lower, init, '
                  'upper) grid incl. inf/nan/None, all sequences of <=' + ('3' if tier == 'quick' else '4')
                  + ' elements over 4-6 element alphabets for Parameters, RandomVariables, VariabilityHierarchy '
-                 'and Model statements, all +/radd/replace combinations of collections with <=2 elements',
+                 'and Model statements, all +/radd/replace combinations of collections with <=2 elements; frame of '
+                 'the writers: 4 parent models (pheno; with initial individual estimates set by '
+                 'update_initial_individual_estimates / by replace; with missing values in the dataset) x '
+                 + ('10' if tier == 'quick' else '17') + ' derivations (itself, remove_iiv, add_iiv, joint distribution, '
+                 'initial estimates, peripheral compartment, zero order absorption, time after dose, rename'
+                 + ('' if tier == 'quick' else ', fix, first order absorption, error model, estimation step, '
+                    'dropped column, two removals') + ') x 5 writers (model.code, update_source, write_model, '
+                 'write_csv, write_files) with deep snapshots (data frame contents, generated code) of the derived '
+                 'model and of its parent around every step',
         'samples': samples,
         'per_class_cases': ' '.join(per),
         'fails': fails,
